@@ -275,11 +275,43 @@ def inject_faults(kind):
     return restore
 
 
+def first_selection_probe(col):
+    """The very first selection of a process (the selector instance that also performs the numba warm-up) must give
+    the coding that later selectors compute for the same settings: it is the one that ends up in the selection cache.
+    Settings: choose 2 of 5 (matched by a pattern encoder; the non-pattern winner has another signature)."""
+    cs = {'src': [{'deg': {'list': [2]}, 'rep': False}], 'tgt': [{'deg': {'list': [0, 1]}, 'rep': False} for _ in range(5)],
+          'excluded': [], 'patterns': None, 'max_conn_parallel': None}
+    main_cache = os.environ.get('XDG_CACHE_HOME')
+    os.environ['XDG_CACHE_HOME'] = os.path.join(main_cache, 'scratch_first')
+    try:
+        col.count('monitor_first_selection_probes')
+        m0, s0 = select(cs, col, dict(probe='first'), timeout=10, cache=True, label='first_of_process')
+        if m0 is None:
+            return
+        first = (coding(m0, cs, -1), s0._last_selection_stage)
+        fr = []
+        for _rep in range(2):
+            m7, s7 = select(cs, col, dict(probe='first'), timeout=10, cache=False, label='fresh_after_first')
+            if m7 is None:
+                return
+            fr.append((coding(m7, cs, -1), s7._last_selection_stage))
+        if fr[0] == fr[1] and fr[0][1] == '0_pattern' and first != fr[0]:
+            col.violation('cached_result_differs_from_fresh_computation', cs,
+                          {'cached': first[0], 'cached_stage': first[1], 'fresh_twice': fr[0][0], 'fresh_stage': fr[0][1],
+                           'first_selection_of_process': True}, [],
+                          where={'same_encoder': first[0]['encoder'] == fr[0][0]['encoder'],
+                                 'via': 'first_selection_of_process'})
+    finally:
+        os.environ['XDG_CACHE_HOME'] = main_cache
+
+
 def phase_a(task, col):
     from adsg_core.optimization.assign_enc.selector import EncoderSelector
     import adsg_core.optimization.assign_enc.matrix as mx
     out = {}
     keys = {}
+    if task['lo'] == 0 or task.get('shard', 0) % 4 == 0:
+        first_selection_probe(col)
     for i in range(task['lo'], task['hi']):
         cs = gen_case(task['seed'], i)
         col.evaluations += 1
@@ -318,6 +350,24 @@ def phase_a(task, col):
         # bypasses *reading* and would overwrite the entry written by the cold selection above
         main_cache = os.environ.get('XDG_CACHE_HOME')
         os.environ['XDG_CACHE_HOME'] = os.path.join(main_cache, 'scratch')
+        # the cached selection equals a freshly computed one in the same process.  Which candidate wins can depend on
+        # machine load (time limits), so only a timing-independent disagreement is judged: two fresh selections agree
+        # on a pattern encoder (stage 0, no time-limited scoring involved) while the cold selection skipped that stage
+        cold_stage = sel._last_selection_stage if mgr is not None else None
+        if (i % 2) == 0 or i == task['lo']:
+            fr = []
+            for _rep in range(2):
+                m7, s7 = select(cs, col, dict(repeat='fresh'), timeout=10, cache=False, label='fresh_repeat')
+                if m7 is None:
+                    break
+                fr.append((coding(m7, cs, i), s7._last_selection_stage))
+            col.count('monitor_fresh_repeat_evaluations')
+            if len(fr) == 2 and fr[0] == fr[1] and fr[0][1] == '0_pattern' and cold_stage not in (None, '0_pattern') \
+                    and fr[0][0]['encoder'] != rec['cold']['encoder']:
+                col.violation('cached_result_differs_from_fresh_computation', cs,
+                              {'cached': rec['cold'], 'cached_stage': cold_stage, 'fresh_twice': fr[0][0],
+                               'fresh_stage': fr[0][1], 'first_selection_of_process': i == task['lo']}, [],
+                              where={'same_encoder': False, 'via': 'same_process_pattern_stage_skipped'})
         # tiny and default limits, cache bypassed (fresh computation)
         for to in (.25, .002):
             m3, _ = select(cs, col, dict(timeout=to), timeout=to, cache=False, label='limit_%s' % to)
